@@ -3,6 +3,7 @@ package harness
 import (
 	"bytes"
 	"context"
+	"encoding/json"
 	"fmt"
 	"strings"
 	"time"
@@ -324,19 +325,21 @@ func CheckC14(r *Report) {
 		r.DistinctNontrivial += res.Complete - res.Conflicting // all complete interleavings share the store; count them all
 	}
 	// the same race over the SDK's own in-memory metastore, preemptions anywhere (also inside its Store / Load bodies)
-	mem := []string{"cold"}
+	type realRun struct{ kind, start string }
+	mem := []realRun{{"memory", "cold"}, {"dynamodb-v1", "cold"}, {"dynamodb-v1", "expired"}, {"dynamodb-v2", "cold"}}
 	if r.Thorough() {
-		mem = append(mem, "expired")
+		mem = append(mem, realRun{"memory", "expired"}, realRun{"dynamodb-v2", "expired"}, realRun{"dynamodb-deprecated", "expired"})
 	}
-	for _, st := range mem {
+	for _, rr := range mem {
+		st := rr.start
 		if !r.TimeLeft() {
 			r.Exhaustive = false
-			r.Caps = append(r.Caps, "mem-2p-"+st+": not started (time budget)")
+			r.Caps = append(r.Caps, c14RealName(rr.kind, st)+": not started (time budget)")
 			continue
 		}
 		t0 := time.Now()
-		cfg := explore.Config{Name: "C14/mem-2p-" + st, Preemptions: 2, HBCache: true, Deadline: r.Deadline, MaxViolations: 50}
-		res := explore.Explore(cfg, c14MemBody(st, 2))
+		cfg := explore.Config{Name: "C14/" + c14RealName(rr.kind, st), Preemptions: 2, HBCache: rr.kind == "memory", Deadline: r.Deadline, MaxViolations: 50}
+		res := explore.Explore(cfg, c14RealBody(rr.kind, st, 2))
 		seen := map[string]bool{}
 		var keep []explore.Violation
 		for _, v := range res.Violations {
@@ -366,8 +369,9 @@ type c14MemCall struct {
 	Thread  int
 }
 
+// c14MemStore logs the calls that reach a real metastore implementation (memory, DynamoDB plugins over the fake).
 type c14MemStore struct {
-	mm    *persistence.MemoryMetastore
+	mm    ae.Metastore
 	calls []c14MemCall
 }
 
@@ -394,19 +398,62 @@ func (s *c14MemStore) Store(c ctxT, id string, created int64, r *ae.EnvelopeKeyR
 	return ok, err
 }
 
-func c14MemBody(start string, nprocs int) explore.Body {
+// c14RealStores: the real metastore implementations the race is run over; rows() is a canonical dump of what is stored.
+func c14RealStore(kind string) (ae.Metastore, func() map[string]string) {
+	if kind == "memory" {
+		mm := persistence.NewMemoryMetastore()
+		return mm, func() map[string]string {
+			out := map[string]string{}
+			for id, byC := range mm.Envelopes {
+				for cr, r := range byC {
+					pm := "nil"
+					if r.ParentKeyMeta != nil {
+						pm = fmt.Sprintf("%s/%d", r.ParentKeyMeta.ID, r.ParentKeyMeta.Created)
+					}
+					out[rowKey(id, cr)] = fmt.Sprintf("%v|%d|%x|%s", r.Revoked, r.Created, r.EncryptedKey, pm)
+				}
+			}
+			return out
+		}
+	}
+	ms, fake := c13DynBuild(strings.TrimPrefix(kind, "dynamodb-"))
+	return ms, func() map[string]string {
+		out := map[string]string{}
+		for _, it := range fake.Tables["EncryptionKey"].Items {
+			b, _ := json.Marshal(it)
+			id, cr := "", ""
+			if it["Id"] != nil && it["Id"].S != nil {
+				id = *it["Id"].S
+			}
+			if it["Created"] != nil && it["Created"].N != nil {
+				cr = *it["Created"].N
+			}
+			out[id+"/"+cr] = string(b)
+		}
+		return out
+	}
+}
+
+func c14MemBody(start string, nprocs int) explore.Body { return c14RealBody("memory", start, nprocs) }
+
+// c14RealBody: nprocs processes (own factory, caches, secrets) race one encrypt each over one real metastore.
+func c14RealBody(kind, start string, nprocs int) explore.Body {
 	return func(c *explore.Ctx) {
 		vsched.BeginQuiet()
 		reg := doubles.NewKeyRegistry()
-		st := &c14MemStore{mm: persistence.NewMemoryMetastore()}
+		real, rows := c14RealStore(kind)
+		st := &c14MemStore{mm: real}
 		kms := doubles.NewSpyKMS()
-		procs := make([]*c14Proc, nprocs)
-		for i := range procs {
-			p := &c14Proc{tf: doubles.NewTrackFactoryShared(reg, fmt.Sprintf("P%d", i+1))}
+		mkProc := func(name string) *c14Proc {
+			p := &c14Proc{tf: doubles.NewTrackFactoryShared(reg, name)}
 			p.aead = doubles.NewSpyAEAD(p.tf)
 			p.f = ae.NewSessionFactory(&ae.Config{Service: "s", Product: "p", Policy: SpecDefault.Build()}, st, kms, p.aead, ae.WithSecretFactory(p.tf))
 			p.s, _ = p.f.GetSession("A")
-			procs[i] = p
+			return p
+		}
+		procs := make([]*c14Proc, nprocs)
+		for i := range procs {
+			procs[i] = mkProc(fmt.Sprintf("P%d", i+1))
 		}
 		if start == "expired" {
 			for _, p := range procs {
@@ -416,12 +463,7 @@ func c14MemBody(start string, nprocs int) explore.Body {
 			}
 			vclock.Advance((E + 1) * time.Second)
 		}
-		before := map[string]*ae.EnvelopeKeyRecord{}
-		for id, byC := range st.mm.Envelopes {
-			for cr, r := range byC {
-				before[rowKey(id, cr)] = r
-			}
-		}
+		before := rows()
 		callsFrom := len(st.calls)
 		vsched.EndQuiet()
 		for i, p := range procs {
@@ -451,41 +493,39 @@ func c14MemBody(start string, nprocs int) explore.Body {
 			}
 			return sb.String()
 		}
-		// the store only grew: rows present before the race are the same records, and a Store that reported
-		// success is the only one that did for its (id, created) and its record is still the stored one
-		for k, r := range before {
-			parts := strings.SplitN(k, "/", 2)
-			if st.mm.Envelopes[parts[0]][atoi64(parts[1])] != r {
+		// the store only grew: rows present before the race are unchanged, and a Store that reported success is the only
+		// one that did for its (id, created)
+		after := rows()
+		for k, v := range before {
+			if after[k] != v {
 				c.Failf("row-modified", "row %s was replaced or removed; calls: %s", k, trail())
 			}
 		}
 		won := map[string]int{}
+		winner := map[string]*ae.EnvelopeKeyRecord{}
 		for _, cl := range st.calls[callsFrom:] {
 			if cl.Op != "Store" || !cl.OK {
 				continue
 			}
 			k := rowKey(cl.ID, cl.Created)
 			won[k]++
-			if won[k] > 1 || before[k] != nil {
+			winner[k] = cl.Rec
+			if _, existed := before[k]; won[k] > 1 || existed {
 				c.Failf("row-overwritten", "more than one Store of %s reported success (an existing key record was replaced); calls: %s", k, trail())
 			}
 		}
-		for _, cl := range st.calls[callsFrom:] {
-			if cl.Op == "Store" && cl.OK && won[rowKey(cl.ID, cl.Created)] == 1 && st.mm.Envelopes[cl.ID][cl.Created] != cl.Rec {
-				c.Failf("row-overwritten", "the record stored successfully as %s/%d is no longer the stored one; calls: %s", cl.ID, cl.Created, trail())
+		for k, rec := range winner {
+			if won[k] != 1 {
+				continue
+			}
+			parts := strings.SplitN(k, "/", 2)
+			got, err := real.Load(ctx, parts[0], atoi64(parts[1]))
+			if err != nil || got == nil || !bytes.Equal(got.EncryptedKey, rec.EncryptedKey) {
+				c.Failf("row-overwritten", "the record stored successfully as %s is no longer the stored one (%v); calls: %s", k, err, trail())
 			}
 		}
-		table := ref.Table{}
-		for id, byC := range st.mm.Envelopes {
-			table[id] = map[int64]*ref.KeyRecord{}
-			for cr, r := range byC {
-				kr := &ref.KeyRecord{Revoked: r.Revoked, Created: r.Created, Key: append([]byte(nil), r.EncryptedKey...)}
-				if r.ParentKeyMeta != nil {
-					kr.ParentKeyMeta = &ref.KeyMeta{KeyId: r.ParentKeyMeta.ID, Created: r.ParentKeyMeta.Created}
-				}
-				table[id][cr] = kr
-			}
-		}
+		// every process ended up under a key that a process with nothing but the store and the KMS can load
+		cold := mkProc("cold-reader")
 		var outcome []string
 		for i, p := range procs {
 			pl := []byte(fmt.Sprintf("payload-P%d", i+1))
@@ -499,20 +539,28 @@ func c14MemBody(start string, nprocs int) explore.Body {
 			}
 			rec := p.recs[0]
 			outcome = append(outcome, fmt.Sprintf("ik%d", rec.Key.ParentKeyMeta.Created))
-			if out, err := ref.Decrypt(table, kms.Unwrap, toRefRow(rec)); err != nil || !bytes.Equal(out, pl) {
-				c.Failf("reference-cannot-decrypt", "record of process %d cannot be decrypted from the metastore contents: %v; calls: %s", i+1, err, trail())
-			}
-			for j, q := range procs {
+			for j, q := range append(append([]*c14Proc{}, procs...), cold) {
 				out, err := q.s.Decrypt(ctx, *cloneDRR(rec))
 				if err != nil || !bytes.Equal(out, pl) {
-					c.Failf("peer-cannot-decrypt", "process %d cannot decrypt the record of process %d: %v; calls: %s", j+1, i+1, err, trail())
+					who := fmt.Sprintf("process %d", j+1)
+					if q == cold {
+						who = "a fresh process"
+					}
+					c.Failf("peer-cannot-decrypt", "%s cannot decrypt the record of process %d: %v; calls: %s", who, i+1, err, trail())
 				}
 			}
 		}
 		c.Outcome(strings.Join(outcome, ","))
-		for _, p := range procs {
+		for _, p := range append(procs, cold) {
 			p.s.Close()
 			p.f.Close()
 		}
 	}
+}
+
+func c14RealName(kind, start string) string {
+	if kind == "memory" {
+		return "mem-2p-" + start
+	}
+	return kind + "-2p-" + start
 }
